@@ -65,14 +65,14 @@ func _goml_inherent_Point_Point_to_json(self__0 Point) string {
     var mtmp0 Point = self__0
     var x1 int32 = mtmp0.x
     var x2 int32 = mtmp0.y
-    var y__2 int32 = x2
-    var x__1 int32 = x1
+    var __field1__2 int32 = x2
+    var __field0__1 int32 = x1
     var t18 string = "{" + "\"x\":"
-    var t19 string = int32_to_string(x__1)
+    var t19 string = int32_to_string(__field0__1)
     var t17 string = t18 + t19
     var t16 string = t17 + ","
     var t15 string = t16 + "\"y\":"
-    var t20 string = int32_to_string(y__2)
+    var t20 string = int32_to_string(__field1__2)
     var t14 string = t15 + t20
     ret44 = t14 + "}"
     return ret44
@@ -84,19 +84,19 @@ func _goml_inherent_Person_Person_to_json(self__3 Person) string {
     var x4 string = mtmp3.name
     var x5 int32 = mtmp3.age
     var x6 bool = mtmp3.active
-    var active__6 bool = x6
-    var age__5 int32 = x5
-    var name__4 string = x4
+    var __field2__6 bool = x6
+    var __field1__5 int32 = x5
+    var __field0__4 string = x4
     var t28 string = "{" + "\"name\":"
-    var t29 string = json_escape_string(name__4)
+    var t29 string = json_escape_string(__field0__4)
     var t27 string = t28 + t29
     var t26 string = t27 + ","
     var t25 string = t26 + "\"age\":"
-    var t30 string = int32_to_string(age__5)
+    var t30 string = int32_to_string(__field1__5)
     var t24 string = t25 + t30
     var t23 string = t24 + ","
     var t22 string = t23 + "\"active\":"
-    var t31 string = bool_to_json(active__6)
+    var t31 string = bool_to_json(__field2__6)
     var t21 string = t22 + t31
     ret45 = t21 + "}"
     return ret45
